@@ -132,4 +132,5 @@ def run(ctx):
   # the content interval that lets from_model skip a single-region document is the hull of its content
   shape.check_content_interval_hull(ctx)
   shape.check_cache_keys(ctx, common.funcs(ctx, ["ttconv.isd"]))
+  isdrules.check_body_frame(ctx)
   common.check_history_independence(ctx, common.CORE)
